@@ -2,7 +2,7 @@
    memo; an in-place edit changes exactly one node of its owner's tree and nothing else; every read returns the pose a
    fresh process would return, whatever was read, edited or copied before. *)
 From Coq Require Import ZArith NArith List Lia ZifyBool ZifyN ZifyNat Bool.
-Require Import ListN Result Bytes Prog Codec PoseRead PoseReadLemmas Graph C06_Graph C06_HeapProofs.
+Require Import ListN Result Bytes Prog Codec PoseRead PoseReadLemmas Graph GraphEdit C06_Graph C06_HeapProofs.
 Import ListNotations.
 Open Scope N_scope.
 
@@ -117,6 +117,129 @@ Qed.
 Lemma nth_error_roots s k : nth_error (roots s) (length (memo_root s) + k) = nth_error (ghanded s) k.
 Proof. unfold roots. rewrite nth_error_app2 by lia. f_equal. lia. Qed.
 
+(* ---------- what callers observe ---------- *)
+Lemma view_of_owns s k root t S : nth_error (ghanded s) k = Some root -> Owns (gheap s) root t S -> (depth t <= 5)%nat ->
+  pose_at s k = pose_of_tree t /\ cells_of s k = S.
+Proof.
+  intros Hk HO Hd. unfold pose_at, cells_of. rewrite Hk. destruct (read_enough _ _ _ _ HO Hd) as [-> ->]. split; reflexivity.
+Qed.
+Lemma nth_error_Forall {X} (Q : X -> Prop) l k x : Forall Q l -> nth_error l k = Some x -> Q x.
+Proof. intros HF Hk. rewrite Forall_forall in HF. apply HF. eapply nth_error_In; eauto. Qed.
+Lemma ginv_pose s : GInv s -> forall k root, nth_error (ghanded s) k = Some root ->
+  exists t S, Owns (gheap s) root t S /\ (depth t <= 5)%nat.
+Proof.
+  intros [Ts [Ss [HL [ND [HD HM]]]]] k root Hk. pose proof (nth_error_roots s k) as Hn. rewrite Hk in Hn.
+  destruct (ownsL_nth _ _ _ _ HL _ _ Hn) as [t [S [Ht [_ HO]]]]. exists t, S. split; [exact HO|]. exact (nth_error_Forall (fun t => (depth t <= 5)%nat) _ _ _ HD Ht).
+Qed.
+(* ---------- structural edits: a newly built object assigned to an attribute, list.pop() ---------- *)
+Definition maxd (kids : list (vtree (list N))) : nat := fold_right (fun k m => Nat.max (depth k) m) 0%nat kids.
+Lemma depth_ge_1 (t : vtree (list N)) : (1 <= depth t)%nat.
+Proof. destruct t. cbn [depth]. lia. Qed.
+Lemma maxd_upd_le f kids : (forall k, (depth (f k) <= depth k)%nat) -> forall i, (maxd (upd i f kids) <= maxd kids)%nat.
+Proof.
+  intros Hf. induction kids as [|k kids IH]; intros [|i]; cbn [upd maxd fold_right]; try lia.
+  - specialize (Hf k). fold (maxd kids). lia.
+  - specialize (IH i). fold (maxd kids). fold (maxd (upd i f kids)). unfold maxd in *. lia.
+Qed.
+Lemma depth_node_edit_le p' F : (forall kids, (maxd (F kids) <= maxd kids)%nat) ->
+  forall path t, (depth (tmap_at path (node_edit p' F) t) <= depth t)%nat.
+Proof.
+  intros HF. induction path as [|i r IH]; intros [p kids].
+  - cbn [tmap_at node_edit depth]. specialize (HF kids). unfold maxd in HF. lia.
+  - cbn [tmap_at depth]. pose proof (maxd_upd_le (tmap_at r (node_edit p' F)) kids IH i) as H. unfold maxd in H. lia.
+Qed.
+Lemma maxd_assign_leaf i w kids : (maxd (upd i (fun _ => leaf w) kids) <= maxd kids)%nat.
+Proof. apply maxd_upd_le. intros k. pose proof (depth_ge_1 k). cbn. lia. Qed.
+Lemma maxd_removelast kids : (maxd (removelast kids) <= maxd kids)%nat.
+Proof.
+  induction kids as [|k kids IH]; [cbn; lia|]. cbn [removelast]. destruct kids as [|k2 kids]; [cbn; lia|].
+  change (maxd (k :: removelast (k2 :: kids))) with (Nat.max (depth k) (maxd (removelast (k2 :: kids)))).
+  change (maxd (k :: k2 :: kids)) with (Nat.max (depth k) (maxd (k2 :: kids))). lia.
+Qed.
+
+Lemma Forall_upd {X} (Q : X -> Prop) f l : Forall Q l -> (forall x, Q x -> Q (f x)) -> forall i, Forall Q (upd i f l).
+Proof. intros HF Hf. induction HF as [|x l Hx HF IH]; intros [|i]; cbn [upd]; constructor; auto. Qed.
+
+Lemma NoDup_concat_nth {X} (Ss : list (list X)) : NoDup (concat Ss) -> forall i S, nth_error Ss i = Some S -> NoDup S.
+Proof.
+  induction Ss as [|S0 Ss IHs]; intros ND [|i] S HS; cbn in HS; try discriminate; cbn [concat] in ND.
+  - injection HS as ->. eapply NoDup_app_l; exact ND.
+  - eapply IHs; [eapply NoDup_app_r; exact ND|exact HS].
+Qed.
+
+(* one node of the k-th pose is edited (heap h -> h'): the invariant survives and nothing else moves *)
+Lemma ginv_node_edit s k root path x h' p0 F :
+  GInv s -> nth_error (ghanded s) k = Some root -> addr_at (gheap s) root path = Some x ->
+  agrees_except (gheap s) h' x ->
+  (forall pth a t S, Owns (gheap s) a t S -> NoDup S -> addr_at (gheap s) a pth = Some x ->
+     exists S', Owns h' a (tmap_at pth (node_edit p0 F) t) S' /\ NoDup S' /\ fresh_or_old (gheap s) S S') ->
+  (forall kids, (maxd (F kids) <= maxd kids)%nat) ->
+  let s' := {| gheap := h'; gmem := gmem s; ghanded := ghanded s |} in
+  GInv s' /\
+  (forall j, j <> k -> pose_at s' j = pose_at s j /\ cells_of s' j = cells_of s j) /\
+  memo_view_g s' = memo_view_g s /\ memo_cells s' = memo_cells s /\
+  (forall t, (match nth_error (ghanded s) k with Some r => read_tree FUEL (gheap s) r | None => None end) = Some t ->
+             read_tree FUEL h' root = Some (tmap_at path (node_edit p0 F) t)).
+Proof.
+  intros HI Ek Ep Hag Hed HF s'.
+  destruct HI as [Ts [Ss [HL [ND [HD HM]]]]].
+  set (i0 := (length (memo_root s) + k)%nat).
+  assert (Hn : nth_error (roots s) i0 = Some root) by (unfold i0; rewrite nth_error_roots; exact Ek).
+  destruct (ownsL_nth _ _ _ _ HL _ _ Hn) as [tk [Sk [Htk [HSk HOk]]]].
+  assert (NDk : NoDup Sk) by exact (NoDup_concat_nth Ss ND i0 Sk HSk).
+  destruct (Hed path root tk Sk HOk NDk Ep) as [Sk' [HOk' [NDk' Hfo]]].
+  assert (Hxk : In x Sk) by (eapply path_in_footprint; eauto).
+  destruct (ownsL_edit_child (gheap s) h' x (roots s) Ts Ss Hag HL ND i0 root Sk _ Sk' Hn HSk Hxk HOk' NDk' Hfo) as [HL' [ND' _]].
+  rewrite (upd_const_eq (tmap_at path (node_edit p0 F)) Ts i0 tk Htk) in HL'.
+  assert (Hdk : (depth tk <= 5)%nat) by exact (nth_error_Forall (fun t => (depth t <= 5)%nat) _ _ _ HD Htk).
+  assert (HD' : Forall (fun t => (depth t <= 5)%nat) (upd i0 (tmap_at path (node_edit p0 F)) Ts)).
+  { apply Forall_upd; [exact HD|]. intros t Ht. pose proof (depth_node_edit_le p0 F HF path t). lia. }
+  assert (HM' : MemoG s' (upd i0 (tmap_at path (node_edit p0 F)) Ts)).
+  { unfold MemoG in *. cbn [gmem s']. unfold i0, memo_root. destruct (gmem s) as [c|]; [|exact I].
+    destruct HM as [hd [H0 Hok]]. exists hd. split; [|exact Hok]. destruct Ts; [discriminate|]. cbn [length Nat.add upd]. exact H0. }
+  assert (HI' : GInv s').
+  { exists (upd i0 (tmap_at path (node_edit p0 F)) Ts), (upd i0 (fun _ => Sk') Ss). repeat split; assumption. }
+  split; [exact HI'|].
+  assert (Hother : forall j rj, nth_error (ghanded s) j = Some rj -> j <> k ->
+            exists t S, Owns (gheap s) rj t S /\ Owns h' rj t S /\ (depth t <= 5)%nat).
+  { intros j rj Ej Hne. pose proof (nth_error_roots s j) as Hj. rewrite Ej in Hj.
+    destruct (ownsL_nth _ _ _ _ HL _ _ Hj) as [t [S [Ht [HS HO]]]].
+    destruct (ownsL_nth _ _ _ _ HL' _ _ Hj) as [t' [S' [Ht' [HS' HO']]]].
+    rewrite nth_error_upd_other in Ht' by (unfold i0; lia). rewrite nth_error_upd_other in HS' by (unfold i0; lia).
+    assert (t' = t) by congruence. assert (S' = S) by congruence. subst. exists t, S. split; [exact HO|]. split; [exact HO'|].
+    exact (nth_error_Forall (fun t => (depth t <= 5)%nat) _ _ _ HD Ht). }
+  split; [|split; [|split]].
+  - intros j Hne. destruct (nth_error (ghanded s) j) as [rj|] eqn:Ej.
+    + destruct (Hother j rj Ej Hne) as [t [S [HO [HO' Hd]]]].
+      destruct (view_of_owns s j rj t S Ej HO Hd) as [-> ->]. exact (view_of_owns s' j rj t S Ej HO' Hd).
+    + unfold pose_at, cells_of. cbn [ghanded s']. rewrite Ej. split; reflexivity.
+  - unfold i0 in *. unfold memo_view_g, header_at, MemoG, roots, memo_root in *. unfold s' in *. cbn [gmem gheap ghanded] in *.
+    destruct (gmem s) as [c|] eqn:Eg; [|reflexivity]. destruct HM as [hd [H0 _]].
+    cbn [app length Nat.add upd] in HL, HL'. inversion HL as [|a0 t0 S0 ptrs kids fps HO HLr]; subst. cbn in H0. injection H0 as ->.
+    cbn [upd] in HL'. inversion HL' as [|a1 t1 S1 ptrs1 kids1 fps1 HO1 HLr1]; subst.
+    pose proof (depth_header_tree hd) as Hd4.
+    destruct (read_enough _ _ _ _ HO ltac:(lia)) as [-> _]. destruct (read_enough _ _ _ _ HO1 ltac:(lia)) as [-> _]. reflexivity.
+  - unfold i0 in *. unfold memo_cells, MemoG, roots, memo_root in *. unfold s' in *. cbn [gmem gheap ghanded] in *.
+    destruct (gmem s) as [c|] eqn:Eg; [|reflexivity]. destruct HM as [hd [H0 _]].
+    cbn [app length Nat.add upd] in HL, HL'. inversion HL as [|a0 t0 S0 ptrs kids fps HO HLr]; subst. cbn in H0. injection H0 as ->.
+    cbn [upd] in HL'. inversion HL' as [|a1 t1 S1 ptrs1 kids1 fps1 HO1 HLr1]; subst.
+    pose proof (depth_header_tree hd) as Hd4.
+    destruct (read_enough _ _ _ _ HO ltac:(lia)) as [_ ->]. destruct (read_enough _ _ _ _ HO1 ltac:(lia)) as [_ ->]. reflexivity.
+  - intros t Ht. rewrite Ek in Ht. destruct (read_enough _ _ _ _ HOk Hdk) as [Hr _]. rewrite Hr in Ht. injection Ht as <-.
+    apply (read_enough h' root _ Sk' HOk'). pose proof (depth_node_edit_le p0 F HF path tk). lia.
+Qed.
+
+Lemma NoDup_concat_disjoint {X} (Ss : list (list X)) : NoDup (concat Ss) ->
+  forall i j A B x, nth_error Ss i = Some A -> nth_error Ss j = Some B -> i <> j -> In x A -> ~ In x B.
+Proof.
+  induction Ss as [|S0 Ss IH]; intros ND i j A B x Hi Hj Hne HA HB; [destruct i; discriminate|].
+  cbn [concat] in ND. destruct i as [|i], j as [|j]; cbn in Hi, Hj; try congruence.
+  - injection Hi as ->. exact (notin_app_r x A (concat Ss) ND HA (in_concat_nth Ss j B x Hj HB)).
+  - injection Hj as ->. exact (notin_app_l x B (concat Ss) ND (in_concat_nth Ss i A x Hi HA) HB).
+  - apply NoDup_app_r in ND. eapply (IH ND i j); eauto.
+Qed.
+
+
 Section WithLegacy.
 Variable legacy : vclass -> header -> rargs -> prog body.
 
@@ -180,7 +303,7 @@ Qed.
 
 Lemma ginv_step s o : GInv s -> GInv (fst (step_g legacy s o)).
 Proof.
-  intros HI. destruct o as [buffer a|k path g|k]; cbn [step_g].
+  intros HI. destruct o as [buffer a|k path g|k|k path i w|k path]; cbn [step_g].
   - pose proof (ginv_read s buffer a HI). destruct (read_g legacy s buffer a). exact H.
   - destruct (nth_error (ghanded s) k) as [root|] eqn:Ek; [|exact HI].
     destruct (addr_at (gheap s) root path) as [x|] eqn:Ep; [|exact HI]. cbn [fst].
@@ -207,34 +330,26 @@ Proof.
       assert (Hd' : (depth t' <= 5)%nat) by (rewrite Forall_forall in HD; apply HD; eapply nth_error_In; eauto).
       destruct (read_enough _ _ _ _ HO Hd') as [Hr' _]. congruence. }
     exact (proj1 (ginv_append s Ts Ss (copy_tree t) ap h1 HL ND HD HM Hd Hal)).
+  - destruct (nth_error (ghanded s) k) as [root|] eqn:Ek; [|exact HI].
+    destruct (addr_at (gheap s) root path) as [x|] eqn:Ep; [|exact HI]. cbn [fst].
+    destruct (nth_error (gheap s) x) as [[p0 ptrs0]|] eqn:Ex.
+    + destruct (owns_assign_child (gheap s) x i (leaf w) p0 ptrs0 Ex) as [_ [Hag Hed]].
+      exact (proj1 (ginv_node_edit s k root path x _ p0 _ HI Ek Ep Hag Hed (maxd_assign_leaf i w))).
+    + exfalso. destruct (ginv_pose s HI k root Ek) as [t [S [HO _]]].
+      pose proof (proj1 (owns_lt (gheap s)) root t S HO x (path_in_footprint _ _ _ _ _ _ HO Ep)) as Hlt.
+      apply nth_error_None in Ex. lia.
+  - destruct (nth_error (ghanded s) k) as [root|] eqn:Ek; [|exact HI].
+    destruct (addr_at (gheap s) root path) as [x|] eqn:Ep; [|exact HI]. cbn [fst].
+    destruct (nth_error (gheap s) x) as [[p0 ptrs0]|] eqn:Ex.
+    + destruct (owns_pop_child (gheap s) x p0 ptrs0 Ex) as [_ [Hag Hed]].
+      exact (proj1 (ginv_node_edit s k root path x _ p0 _ HI Ek Ep Hag Hed maxd_removelast)).
+    + exfalso. destruct (ginv_pose s HI k root Ek) as [t [S [HO _]]].
+      pose proof (proj1 (owns_lt (gheap s)) root t S HO x (path_in_footprint _ _ _ _ _ _ HO Ep)) as Hlt.
+      apply nth_error_None in Ex. lia.
 Qed.
 Lemma ginv_run ops : forall s, GInv s -> GInv (run_g legacy s ops).
 Proof. induction ops as [|o ops IH]; intros s HI; [exact HI|]. cbn [run_g]. apply IH. now apply ginv_step. Qed.
 End WithLegacy.
-
-(* ---------- what callers observe ---------- *)
-Lemma view_of_owns s k root t S : nth_error (ghanded s) k = Some root -> Owns (gheap s) root t S -> (depth t <= 5)%nat ->
-  pose_at s k = pose_of_tree t /\ cells_of s k = S.
-Proof.
-  intros Hk HO Hd. unfold pose_at, cells_of. rewrite Hk. destruct (read_enough _ _ _ _ HO Hd) as [-> ->]. split; reflexivity.
-Qed.
-Lemma nth_error_Forall {X} (Q : X -> Prop) l k x : Forall Q l -> nth_error l k = Some x -> Q x.
-Proof. intros HF Hk. rewrite Forall_forall in HF. apply HF. eapply nth_error_In; eauto. Qed.
-Lemma ginv_pose s : GInv s -> forall k root, nth_error (ghanded s) k = Some root ->
-  exists t S, Owns (gheap s) root t S /\ (depth t <= 5)%nat.
-Proof.
-  intros [Ts [Ss [HL [ND [HD HM]]]]] k root Hk. pose proof (nth_error_roots s k) as Hn. rewrite Hk in Hn.
-  destruct (ownsL_nth _ _ _ _ HL _ _ Hn) as [t [S [Ht [_ HO]]]]. exists t, S. split; [exact HO|]. exact (nth_error_Forall (fun t => (depth t <= 5)%nat) _ _ _ HD Ht).
-Qed.
-Lemma NoDup_concat_disjoint {X} (Ss : list (list X)) : NoDup (concat Ss) ->
-  forall i j A B x, nth_error Ss i = Some A -> nth_error Ss j = Some B -> i <> j -> In x A -> ~ In x B.
-Proof.
-  induction Ss as [|S0 Ss IH]; intros ND i j A B x Hi Hj Hne HA HB; [destruct i; discriminate|].
-  cbn [concat] in ND. destruct i as [|i], j as [|j]; cbn in Hi, Hj; try congruence.
-  - injection Hi as ->. exact (notin_app_r x A (concat Ss) ND HA (in_concat_nth Ss j B x Hj HB)).
-  - injection Hj as ->. exact (notin_app_l x B (concat Ss) ND (in_concat_nth Ss i A x Hi HA) HB).
-  - apply NoDup_app_r in ND. eapply (IH ND i j); eauto.
-Qed.
 
 Section Theorems.
 Variable legacy : vclass -> header -> rargs -> prog body.
@@ -430,6 +545,36 @@ Theorem reachable_no_sharing ops :
   let s := run_g legacy ginit ops in
   (forall i j x, i <> j -> In x (cells_of s i) -> ~ In x (cells_of s j)) /\ (forall j x, In x (memo_cells s) -> ~ In x (cells_of s j)).
 Proof. intros s. apply no_sharing_g. apply ginv_run. apply ginv_init. Qed.
+
+(* structural edits are local as well: a newly built object assigned to an attribute of the k-th pose, or the last element popped
+   from one of its lists, changes that node of that pose's tree and leaves every other pose and the memo exactly as they were *)
+Theorem structural_edit_is_local s o : GInv s ->
+  match o with GAssign _ _ _ _ | GPop _ _ => True | _ => False end ->
+  let k := match o with GAssign k _ _ _ | GPop k _ => k | _ => 0%nat end in
+  let s' := fst (step_g legacy s o) in
+  (forall j, j <> k -> pose_at s' j = pose_at s j /\ cells_of s' j = cells_of s j) /\
+  memo_view_g s' = memo_view_g s /\ memo_cells s' = memo_cells s.
+Proof.
+  intros HI Ho k s'. subst k s'. destruct o as [b a|k path g|k|k path i w|k path]; try contradiction; cbn [step_g].
+  - destruct (nth_error (ghanded s) k) as [root|] eqn:Ek; [|repeat split; reflexivity].
+    destruct (addr_at (gheap s) root path) as [x|] eqn:Ep; [|repeat split; reflexivity]. cbn [fst].
+    destruct (nth_error (gheap s) x) as [[p0 ptrs0]|] eqn:Ex.
+    + destruct (owns_assign_child (gheap s) x i (leaf w) p0 ptrs0 Ex) as [_ [Hag Hed]].
+      destruct (ginv_node_edit s k root path x _ p0 _ HI Ek Ep Hag Hed (maxd_assign_leaf i w)) as [_ [H1 [H2 [H3 _]]]].
+      split; [exact H1|]. split; assumption.
+    + exfalso. destruct (ginv_pose s HI k root Ek) as [t [S [HO _]]].
+      pose proof (proj1 (owns_lt (gheap s)) root t S HO x (path_in_footprint _ _ _ _ _ _ HO Ep)) as Hlt.
+      apply nth_error_None in Ex. lia.
+  - destruct (nth_error (ghanded s) k) as [root|] eqn:Ek; [|repeat split; reflexivity].
+    destruct (addr_at (gheap s) root path) as [x|] eqn:Ep; [|repeat split; reflexivity]. cbn [fst].
+    destruct (nth_error (gheap s) x) as [[p0 ptrs0]|] eqn:Ex.
+    + destruct (owns_pop_child (gheap s) x p0 ptrs0 Ex) as [_ [Hag Hed]].
+      destruct (ginv_node_edit s k root path x _ p0 _ HI Ek Ep Hag Hed maxd_removelast) as [_ [H1 [H2 [H3 _]]]].
+      split; [exact H1|]. split; assumption.
+    + exfalso. destruct (ginv_pose s HI k root Ek) as [t [S [HO _]]].
+      pose proof (proj1 (owns_lt (gheap s)) root t S HO x (path_in_footprint _ _ _ _ _ _ HO Ep)) as Hlt.
+      apply nth_error_None in Ex. lia.
+Qed.
 End Theorems.
 
 (* non-vacuity: a read, an in-place edit of the result's dimensions, a copy of the edited pose, a second read of the same bytes *)
@@ -437,6 +582,20 @@ Require Import C01_Examples.
 Definition ex_file : bytes := match write_pose ex_pose with Ok b => b | Err _ => [] end.
 Definition ex_ghistory : list gop :=
   [GRead ex_file no_args; GEdit 0 [0; 0]%nat (fun _ => [1; 2; 3]); GCopy 0; GRead ex_file no_args].
+Definition ex_ghistory2 : list gop :=
+  [GRead ex_file no_args; GAssign 0 [0]%nat 0 [9; 9; 9]; GPop 0 [0; 1]%nat; GCopy 0; GRead ex_file no_args].
+Lemma ex_ghistory2_runs :
+  let s := run_g no_legacy ginit ex_ghistory2 in
+  length (ghanded s) = 3%nat /\
+  option_map (fun p => (h_dims (p_header p), length (h_comps (p_header p)))) (pose_at s 0) = Some ((9, 9, 9), 1%nat) /\
+  option_map (fun p => (h_dims (p_header p), length (h_comps (p_header p)))) (pose_at s 1) = Some ((9, 9, 9), 1%nat) /\
+  pose_at s 2 = match fst (read_bytes no_legacy None ex_file no_args) with Ok p => Some p | Err _ => None end /\
+  option_map (fun p => length (h_comps (p_header p))) (pose_at s 2) = Some 2%nat /\
+  NoDup (memo_cells s ++ cells_of s 0 ++ cells_of s 1 ++ cells_of s 2).
+Proof.
+  vm_compute. repeat split; try reflexivity.
+  repeat (constructor; [cbn; intuition discriminate|]). constructor.
+Qed.
 Lemma ex_ghistory_runs :
   let s := run_g no_legacy ginit ex_ghistory in
   length (ghanded s) = 3%nat /\
